@@ -378,6 +378,9 @@ ADV_POOL = [
     ('M\\&\\#x3c;b\\&\\#x3e;', 'M&#x3c;b&#x3e;'), ('M>\\&<', 'M>&<'), ('M\\&quot;', 'M&quot;'), ('<a href="x">M</a>', '<a href="x">M</a>'),
     # characters outside the Basic Multilingual Plane (an emoji, a mathematical letter, a CJK extension B ideograph)
     ('M\U0001f600\U0001d538\U00020000', 'M\U0001f600\U0001d538\U00020000'),
+    # characters that Unicode normalization would replace (Kelvin and Ohm signs, a compatibility ideograph, a decomposed accent),
+    # and a leaf that begins with a combining mark (it must not merge with the markup character before it)
+    ('M\u212a\u2126\ufa19e\u0301', 'M\u212a\u2126\ufa19e\u0301'), ('\u0338M\u0338', '\u0338M\u0338'),
 ]
 ADV_ON = [True]
 
